@@ -3,11 +3,12 @@ import MpfVerif.Model.Game
 namespace MpfVerif.Game
 
 /-- the follow relation of the lifecycle grammar
-`game_will_start game_starting game_started turn* game_will_end game_ending game_ended`,
+`game_will_start game_starting (game_started turn*)? game_will_end game_ending game_ended` (a game that is ended
+while it is starting ends without having started),
 `turn = player_turn_will_start player_turn_starting player_turn_started ball* player_turn_will_end .._ending .._ended`,
 `ball = ball_will_start ball_starting ball_started ball_will_end ball_ending ball_ended` -/
 def follows : Ev → Ev → Bool
-  | .gws, .gsg | .gsg, .gsd | .gsd, .ptws | .gsd, .gwe => true
+  | .gws, .gsg | .gsg, .gsd | .gsg, .gwe | .gsd, .ptws | .gsd, .gwe => true
   | .ptws, .ptsg | .ptsg, .ptsd | .ptsd, .bws | .ptsd, .ptwe => true
   | .bws, .bsg | .bsg, .bsd | .bsd, .bwe | .bwe, .beg | .beg, .bed => true
   | .bed, .bws | .bed, .ptwe | .ptwe, .pteg | .pteg, .pted => true
@@ -69,6 +70,8 @@ theorem resume_spec (st st' : St) (h : resume st = some st') :
       st'.known = st.known ∧ (st.bip ≤ st.known → st'.bip ≤ st'.known) := by
   unfold resume at h
   have hb := setBipTo_le st 1
+  split at h
+  · cases h
   cases hp : st.pc with
   | none => simp [hp] at h
   | some p =>
@@ -87,7 +90,8 @@ theorem resume_spec (st st' : St) (h : resume st = some st') :
       simp [follows, hev, tr, emit]
     case ged => simp [hp] at h
     case gsg =>
-      by_cases h0 : st.players = 0 <;> simp [hp, h0] at h <;> subst h <;> simp [follows, tr, emit]
+      by_cases hc : st.checked = true <;> by_cases he : st.ending = true <;> by_cases h0 : st.players = 0 <;>
+        simp [hp, hc, he, h0] at h <;> subst h <;> simp [follows, he, tr, emit]
     case bsg =>
       simp [hp] at h; subst h
       refine ⟨.bsd, rfl, rfl, ?_, rfl, ?_, ?_, rfl, fun _ => hb⟩
@@ -97,7 +101,6 @@ theorem resume_spec (st st' : St) (h : resume st = some st') :
     all_goals (simp [hp] at h; subst h; simp [follows, tr, emit])
     all_goals (try (intro h1; omega))
     all_goals (try (intro _; exact hb))
-
 
 def pcOk (st : St) : Prop :=
   match st.pc with
@@ -183,7 +186,11 @@ theorem step_ginv (st st' : St) (op : Op) (hI : GInv st) (h : step st op = some 
   | addAccepted =>
     simp only [step, stepAdd] at h; split at h
     · cases h
-    · cases h; exact ⟨hI, rfl⟩
+    · cases h; exact ⟨ginv_env st _ hI rfl rfl hI.bip, rfl⟩
+  | startCheck =>
+    simp only [step] at h; split at h
+    · cases h; exact ⟨ginv_env st _ hI rfl rfl hI.bip, rfl⟩
+    · cases h
   | addRejected =>
     simp only [step, stepAdd] at h; split at h
     · cases h
@@ -222,5 +229,456 @@ def start0 (b m k : Nat) : St := { bpg := b, maxPlayers := m, known := k }
 theorem start0_inv (b m k : Nat) : GInv (start0 b m k) := by
   refine ⟨by simp [start0, tr, okFrom], ?_, by simp [start0]⟩
   simp [pcOk, start0, tr, lastOf]
+
+
+/-! ## ball numbers: the round structure -/
+
+def pre (pc : Option Ev) : Prop := pc = some .gws ∨ pc = some .gsg ∨ pc = some .gsd
+
+def inTurn (pc : Option Ev) : Prop :=
+  pc = some .ptws ∨ pc = some .ptsg ∨ pc = some .ptsd ∨ pc = some .bws ∨ pc = some .bsg ∨ pc = some .bsd ∨
+  pc = some .bwe ∨ pc = some .beg ∨ pc = some .bed ∨ pc = some .ptwe ∨ pc = some .pteg ∨ pc = some .pted
+
+/-- Before the first turn nobody has a ball number; during the turns all players up to the current one are on the
+current player's ball, all later ones on the ball before (players join only while that is ball 0) — and nobody is ever
+beyond balls_per_game. -/
+structure BInv (st : St) : Prop where
+  bpos : 1 ≤ st.bpg
+  bound : ∀ p, st.balls p ≤ st.bpg
+  beyond : ∀ p, p > st.players → st.balls p = 0
+  preA : pre st.pc → (∀ p, st.balls p = 0) ∧ st.cur = (if st.players = 0 then 0 else 1)
+  preD : st.pc = some .gsd → st.players ≥ 1
+  turnB : inTurn st.pc → 1 ≤ st.cur ∧ st.cur ≤ st.players ∧ 1 ≤ st.balls st.cur ∧
+    (∀ p, 1 ≤ p → p ≤ st.cur → st.balls p = st.balls st.cur) ∧
+    (∀ p, st.cur < p → p ≤ st.players → st.balls p = st.balls st.cur - 1)
+  pend : st.pendAdds > 0 → ¬(st.cur ≠ 0 ∧ st.balls st.cur > 1)
+
+/-- a step that keeps the roster and the ball numbers and stays in (or leaves) the phase -/
+theorem binv_keep (st st' : St) (hI : BInv st) (h1 : st'.bpg = st.bpg) (h2 : st'.balls = st.balls)
+    (h3 : st'.cur = st.cur) (h4 : st'.players = st.players) (h5 : st'.pendAdds > 0 → st.pendAdds > 0)
+    (hp : pre st'.pc → pre st.pc) (ht : inTurn st'.pc → inTurn st.pc) (hd : st'.pc = some .gsd → st.players ≥ 1) :
+    BInv st' := by
+  refine ⟨by rw [h1]; exact hI.bpos, by rw [h1, h2]; exact hI.bound, ?_, ?_, ?_, ?_, ?_⟩
+  · rw [h2, h4]; exact hI.beyond
+  · intro hph; rw [h2, h3, h4]; exact hI.preA (hp hph)
+  · intro hx; rw [h4]; exact hd hx
+  · intro hph; rw [h2, h3, h4]; exact hI.turnB (ht hph)
+  · intro hx; rw [h2, h3]; exact hI.pend (h5 hx)
+
+/-- the beginning of a turn (`_start_player_turn`): the player `c` whose turn it is gets the next ball number -/
+theorem binv_turn (st st' : St) (c : Nat) (hI : BInv st) (h1 : st'.bpg = st.bpg)
+    (h2 : st'.balls = setAt st.balls c (st.balls c + 1)) (h3 : st'.cur = c) (h4 : st'.players = st.players)
+    (h5 : st'.pendAdds = 0) (hpc : st'.pc = some .ptws)
+    (hc : (pre st.pc ∧ st.pc = some .gsd ∧ c = 1) ∨
+          (inTurn st.pc ∧ ¬(st.balls st.cur ≥ st.bpg ∧ st.cur = st.players) ∧
+            c = (if st.cur < st.players then st.cur + 1 else 1))) :
+    BInv st' := by
+  have hT : inTurn st'.pc := by rw [hpc]; exact Or.inl rfl
+  have hnP : ¬ pre st'.pc := by rw [hpc]; intro h; rcases h with h | h | h <;> cases h
+  rcases hc with ⟨hpre, hgsd, hc1⟩ | ⟨htn, hlast, hcn⟩
+  · obtain ⟨hz, _⟩ := hI.preA hpre
+    have hpl := hI.preD hgsd
+    subst hc1
+    refine ⟨by rw [h1]; exact hI.bpos, ?_, ?_, fun h => absurd h hnP, (fun h => by rw [hpc] at h; cases h), ?_, ?_⟩
+    · intro p; rw [h1, h2]; simp only [setAt]; split
+      · rw [hz]; exact hI.bpos
+      · rw [hz]; exact Nat.zero_le _
+    · intro p hp; rw [h2]; simp only [setAt]; rw [h4] at hp; split
+      · omega
+      · exact hz p
+    · intro _; rw [h2, h3, h4]; simp only [setAt, hz]
+      refine ⟨Nat.le_refl _, hpl, by simp, ?_, ?_⟩
+      · intro p h1p hp1; have : p = 1 := by omega
+        simp [this]
+      · intro p hp _; have : p ≠ 1 := by omega
+        simp [this]
+    · intro hx; rw [h5] at hx; omega
+  · obtain ⟨hc1, hcp, hb1, hle, hgt⟩ := hI.turnB htn
+    have hbey := hI.beyond
+    have hbd := hI.bound
+    have hbcur := hbd st.cur
+    by_cases hlt : st.cur < st.players
+    · rw [if_pos hlt] at hcn; subst hcn
+      have hnext := hgt (st.cur + 1) (by omega) (by omega)
+      refine ⟨by rw [h1]; exact hI.bpos, ?_, ?_, fun h => absurd h hnP, (fun h => by rw [hpc] at h; cases h), ?_, ?_⟩
+      · intro p; rw [h1, h2]; simp only [setAt]; split
+        · rw [hnext]; omega
+        · exact hbd p
+      · intro p hp; rw [h2]; simp only [setAt]; rw [h4] at hp; split
+        · omega
+        · exact hbey p hp
+      · intro _; rw [h2, h3, h4]; simp only [setAt, if_true, hnext]
+        refine ⟨by omega, by omega, by omega, ?_, ?_⟩
+        · intro p h1p hpc'
+          split
+          · rfl
+          · rw [hle p h1p (by omega)]; omega
+        · intro p hp hpp
+          have : p ≠ st.cur + 1 := by omega
+          simp only [this, if_false]
+          rw [hgt p (by omega) hpp]; omega
+      · intro hx; rw [h5] at hx; omega
+    · rw [if_neg hlt] at hcn; subst hcn
+      have hceq : st.cur = st.players := by omega
+      have hsmall : st.balls st.cur < st.bpg := by
+        by_cases hge : st.balls st.cur ≥ st.bpg
+        · exact absurd ⟨hge, hceq⟩ hlast
+        · omega
+      have h1eq : st.balls 1 = st.balls st.cur := hle 1 (Nat.le_refl _) hc1
+      refine ⟨by rw [h1]; exact hI.bpos, ?_, ?_, fun h => absurd h hnP, (fun h => by rw [hpc] at h; cases h), ?_, ?_⟩
+      · intro p; rw [h1, h2]; simp only [setAt]; split
+        · rw [h1eq]; omega
+        · exact hbd p
+      · intro p hp; rw [h2]; simp only [setAt]; rw [h4] at hp; split
+        · omega
+        · exact hbey p hp
+      · intro _; rw [h2, h3, h4]; simp only [setAt, if_true, h1eq]
+        refine ⟨Nat.le_refl _, by omega, by omega, ?_, ?_⟩
+        · intro p h1p hp1; have : p = 1 := by omega
+          simp [this]
+        · intro p hp hpp
+          have : p ≠ 1 := by omega
+          simp only [this, if_false]
+          rw [hle p (by omega) (by omega)]; omega
+      · intro hx; rw [h5] at hx; omega
+
+
+/-- a player joins (only while the current player is not beyond ball 1) -/
+theorem binv_add (st st' : St) (hI : BInv st) (h1 : st'.bpg = st.bpg) (h2 : st'.balls = st.balls)
+    (h3 : st'.cur = (if st.cur = 0 then st.players + 1 else st.cur)) (h4 : st'.players = st.players + 1)
+    (hpc : st'.pc = st.pc)
+    (hg : ¬(st.cur ≠ 0 ∧ st.balls st.cur > 1)) : BInv st' := by
+  refine ⟨by rw [h1]; exact hI.bpos, by rw [h1, h2]; exact hI.bound, ?_, ?_, ?_, ?_, ?_⟩
+  · intro p hp; rw [h2]; rw [h4] at hp; exact hI.beyond p (by omega)
+  · intro hph; rw [hpc] at hph
+    obtain ⟨hz, hc⟩ := hI.preA hph
+    refine ⟨by rw [h2]; exact hz, ?_⟩
+    rw [h3, h4, hc]
+    by_cases h0 : st.players = 0 <;> simp [h0]
+  · intro _; rw [h4]; omega
+  · intro hph; rw [hpc] at hph
+    obtain ⟨hc1, hcp, hb1, hle, hgt⟩ := hI.turnB hph
+    have hc0 : st.cur ≠ 0 := by omega
+    have hb : st.balls st.cur = 1 := by
+      have : ¬ st.balls st.cur > 1 := fun h => hg ⟨hc0, h⟩
+      omega
+    rw [h2, h3, h4, if_neg hc0]
+    refine ⟨hc1, by omega, hb1, hle, ?_⟩
+    intro p hp hpp
+    by_cases hlast : p ≤ st.players
+    · exact hgt p hp hlast
+    · rw [hI.beyond p (by omega), hb]
+  · intro _; rw [h2, h3]
+    by_cases hc0 : st.cur = 0
+    · rw [if_pos hc0]
+      intro hx
+      have hz : st.balls (st.players + 1) = 0 := hI.beyond _ (by omega)
+      omega
+    · rw [if_neg hc0]; exact hg
+
+
+/-- the turns are over (or the game ended while starting): only the bound and the unused slots matter -/
+theorem binv_leave (st st' : St) (hI : BInv st) (h1 : st'.bpg = st.bpg) (h2 : st'.balls = st.balls)
+    (h4 : st'.players = st.players) (h5 : st'.pendAdds = 0) (hp : ¬ pre st'.pc) (ht : ¬ inTurn st'.pc) : BInv st' := by
+  refine ⟨by rw [h1]; exact hI.bpos, by rw [h1, h2]; exact hI.bound, by rw [h2, h4]; exact hI.beyond,
+    fun h => absurd h hp, ?_, fun h => absurd h ht, ?_⟩
+  · intro hx; exact absurd (Or.inr (Or.inr hx)) hp
+  · intro hx; rw [h5] at hx; omega
+
+theorem resume_binv (st st' : St) (hI : BInv st) (h : resume st = some st') : BInv st' := by
+  unfold resume at h
+  split at h
+  · cases h
+  rename_i hpend
+  have hp0 : st.pendAdds = 0 := by omega
+  cases hp : st.pc with
+  | none => simp [hp] at h
+  | some p =>
+    cases p
+    case gsd =>
+      by_cases he : st.ending = true <;> simp [hp, he, loopCheck] at h <;> subst h
+      · refine binv_keep st _ hI rfl rfl rfl rfl (fun h => h) ?_ ?_ ?_ <;> simp [pre, inTurn, hp, emit]
+      · have hpre : pre st.pc := by rw [hp]; exact Or.inr (Or.inr rfl)
+        have hc := (hI.preA hpre).2
+        have hpl := hI.preD hp
+        have hc1 : st.cur = 1 := by rw [hc]; simp; omega
+        refine binv_turn st _ 1 hI rfl ?_ ?_ rfl hp0 rfl (Or.inl ⟨hpre, hp, rfl⟩) <;> simp [emit, hc1]
+    case pted =>
+      simp only [hp] at h
+      have hT : inTurn st.pc := by rw [hp]; simp [inTurn]
+      split at h
+      · simp [loopCheck] at h; subst h
+        refine binv_leave st _ hI rfl rfl rfl hp0 ?_ ?_ <;> simp [pre, inTurn, emit]
+      · rename_i hcond
+        have hlast : ¬(st.balls st.cur ≥ st.bpg ∧ st.cur = st.players) := by
+          intro ⟨a, b⟩; apply hcond
+          have a' : st.balls st.players ≥ st.bpg := b ▸ a
+          simp [a', b]
+        have hrot : ∀ r : Nat, r = (if st.cur < st.players then st.cur + 1 else 1) → (if r = 0 then 1 else r) = r := by
+          intro r hr; have : r ≠ 0 := by rw [hr]; split <;> omega
+          simp [this]
+        by_cases he : st.ending = true <;> simp [he, loopCheck] at h <;> subst h
+        · refine binv_leave st _ hI rfl rfl rfl hp0 ?_ ?_ <;> simp [pre, inTurn, emit]
+        · refine binv_turn st _ (if st.cur < st.players then st.cur + 1 else 1) hI rfl ?_ ?_ rfl hp0 rfl
+            (Or.inr ⟨hT, hlast, rfl⟩) <;> simp [emit, hrot _ rfl]
+    case ptsd | bed =>
+      by_cases he : st.ending = true <;> by_cases hs : st.slam = true <;> by_cases hx : st.extra st.cur > 0 <;>
+        simp [hp, he, hs, hx, extraCheck, startBall] at h <;> subst h <;>
+        (refine binv_keep st _ hI rfl rfl rfl rfl (fun h => h) ?_ ?_ ?_ <;> simp [pre, inTurn, hp, emit])
+    case bsd =>
+      by_cases hev : st.endEv = true <;> simp [hp, hev] at h
+      subst h
+      refine binv_keep st _ hI rfl rfl rfl rfl (fun h => h) ?_ ?_ ?_ <;> simp [pre, inTurn, hp, emit]
+    case ged => simp [hp] at h
+    case gsg =>
+      by_cases hc : st.checked = true <;> by_cases he : st.ending = true <;> by_cases h0 : st.players = 0 <;>
+        simp [hp, hc, he, h0] at h <;> subst h <;>
+        (refine binv_keep st _ hI rfl rfl rfl rfl (fun h => h) ?_ ?_ ?_ <;> simp [pre, inTurn, hp, emit] <;> omega)
+    all_goals
+      simp [hp] at h
+      subst h
+      refine binv_keep st _ hI rfl rfl rfl rfl (fun h => h) ?_ ?_ ?_ <;> simp [pre, inTurn, hp, emit]
+
+
+theorem step_binv (st st' : St) (op : Op) (hI : BInv st) (h : step st op = some st') : BInv st' := by
+  have keep : ∀ s : St, s.bpg = st.bpg → s.balls = st.balls → s.cur = st.cur → s.players = st.players →
+      s.pendAdds = st.pendAdds → s.pc = st.pc → BInv s := by
+    intro s a b c d e f
+    exact binv_keep st s hI a b c d (by rw [e]; exact fun x => x) (by rw [f]; exact fun x => x)
+      (by rw [f]; exact fun x => x) (by rw [f]; exact hI.preD)
+  cases op with
+  | start =>
+    simp only [step] at h
+    split at h
+    · cases h
+    · cases h
+      refine ⟨hI.bpos, fun _ => Nat.zero_le _, fun _ _ => rfl, fun _ => ⟨fun _ => rfl, rfl⟩, ?_, ?_, ?_⟩
+      · intro hx; simp [emit] at hx
+      · intro hx; simp [inTurn, emit] at hx
+      · intro hx; simp [emit] at hx
+  | resume => exact resume_binv st st' hI h
+  | endBall =>
+    simp only [step] at h; split at h
+    · cases h
+    · cases h; exact keep _ rfl rfl rfl rfl rfl rfl
+  | endGame =>
+    simp only [step] at h; split at h
+    · cases h
+    · cases h; exact keep _ rfl rfl rfl rfl rfl rfl
+  | slam =>
+    simp only [step] at h; split at h
+    · cases h
+    · cases h; exact keep _ rfl rfl rfl rfl rfl rfl
+  | setBip n =>
+    simp only [step] at h; split at h
+    · cases h
+    · cases h; exact keep _ rfl rfl rfl rfl rfl rfl
+  | drain n =>
+    simp only [step] at h; split at h
+    · cases h
+      split
+      · exact hI
+      · exact keep _ rfl rfl rfl rfl rfl rfl
+    · cases h
+  | extraBall =>
+    simp only [step] at h; split at h
+    · cases h
+    · cases h; exact keep _ rfl rfl rfl rfl rfl rfl
+  | addPlayer =>
+    simp only [step] at h; split at h
+    · cases h
+    · split at h
+      · cases h; exact hI
+      · rename_i hr
+        cases h
+        have hg : ¬(st.cur ≠ 0 ∧ st.balls st.cur > 1) := by
+          intro ⟨a, b⟩; apply hr; simp [addRefused, a, b]
+        exact binv_add st { st with players := st.players + 1, cur := if st.cur = 0 then st.players + 1 else st.cur }
+          hI rfl rfl rfl rfl rfl hg
+  | addAccepted =>
+    simp only [step, stepAdd] at h; split at h
+    · cases h
+    · rename_i hr
+      cases h
+      have hg : ¬(st.cur ≠ 0 ∧ st.balls st.cur > 1) := by
+        intro ⟨a, b⟩; apply hr; simp [addRefused, a, b]
+      exact ⟨hI.bpos, hI.bound, hI.beyond, hI.preA, hI.preD, hI.turnB, fun _ => hg⟩
+  | addRejected =>
+    simp only [step, stepAdd] at h; split at h
+    · cases h
+    · cases h; exact hI
+  | playerAdded =>
+    simp only [step, stepAdd] at h; split at h
+    · cases h
+    · rename_i hr
+      cases h
+      have hpos : st.pendAdds > 0 := by
+        simp only [Bool.or_eq_true, decide_eq_true_eq, not_or] at hr
+        omega
+      have hB := binv_add st { st with players := st.players + 1, cur := if st.cur = 0 then st.players + 1 else st.cur }
+        hI rfl rfl rfl rfl rfl (hI.pend hpos)
+      exact ⟨hB.bpos, hB.bound, hB.beyond, hB.preA, hB.preD, hB.turnB, fun _ => hB.pend hpos⟩
+  | finish =>
+    simp only [step] at h; split at h
+    · cases h
+      by_cases hp0 : st.pendAdds = 0
+      · refine binv_leave st _ hI rfl rfl rfl hp0 ?_ ?_ <;> simp [pre, inTurn]
+      · have hg := hI.pend (by omega)
+        exact ⟨hI.bpos, hI.bound, hI.beyond, fun hx => by simp [pre] at hx, fun hx => by simp at hx,
+          fun hx => by simp [inTurn] at hx, fun _ => hg⟩
+    · cases h
+  | startCheck =>
+    simp only [step] at h; split at h
+    · cases h; exact keep _ rfl rfl rfl rfl rfl rfl
+    · cases h
+
+theorem run_binv (st : St) (ops : List Op) (hI : BInv st) : BInv (run st ops) := by
+  induction ops generalizing st with
+  | nil => exact hI
+  | cons op r ih =>
+    simp only [run]
+    cases hs : step st op with
+    | none => simpa using ih st hI
+    | some st' => simpa using ih st' (step_binv st st' op hI hs)
+
+theorem start0_binv (b m k : Nat) (hb : 1 ≤ b) : BInv (start0 b m k) := by
+  refine ⟨hb, fun _ => Nat.zero_le _, fun _ _ => rfl, fun hx => ?_, fun hx => ?_, fun hx => ?_, fun hx => ?_⟩
+  · simp [pre, start0] at hx
+  · simp [start0] at hx
+  · simp [inTurn, start0] at hx
+  · simp [start0] at hx
+
+/-! ## extra balls: one ball per turn plus one per extra ball awarded -/
+
+/-- per player, in the current game: balls started + extra balls still pending = turns whose first ball started +
+extra balls awarded -/
+def Acc (st : St) : Prop := ∀ p, st.started p + st.extra p = st.firstBalls p + st.awarded p
+
+theorem resume_acc (st st' : St) (hA : Acc st) (h : resume st = some st') : Acc st' := by
+  unfold resume at h
+  split at h
+  · cases h
+  cases hp : st.pc with
+  | none => simp [hp] at h
+  | some p =>
+    cases p
+    case gsd | pted =>
+      by_cases he : st.ending = true <;> by_cases hs : st.slam = true <;> by_cases hl : st.balls st.cur ≥ st.bpg <;>
+        simp [hp, he, hs, hl, loopCheck] at h <;> (try split at h) <;> (try simp at h) <;> subst h <;> exact hA
+    case ptsd | bed =>
+      by_cases he : st.ending = true <;> by_cases hs : st.slam = true <;> by_cases hx : st.extra st.cur > 0 <;>
+        simp [hp, he, hs, hx, extraCheck, startBall] at h <;> subst h <;> intro q <;> have := hA q <;>
+        simp only [emit, setAt] <;> (try split) <;> (try subst_vars) <;> (try omega)
+    case bsd =>
+      by_cases hev : st.endEv = true <;> simp [hp, hev] at h
+      subst h; exact hA
+    case ged => simp [hp] at h
+    case gsg =>
+      by_cases hc : st.checked = true <;> by_cases he : st.ending = true <;> by_cases h0 : st.players = 0 <;>
+        simp [hp, hc, he, h0] at h <;> subst h <;> exact hA
+    all_goals
+      simp [hp] at h
+      subst h
+      exact hA
+
+
+theorem step_acc (st st' : St) (op : Op) (hA : Acc st) (h : step st op = some st') : Acc st' := by
+  cases op with
+  | start =>
+    simp only [step] at h; split at h
+    · cases h
+    · cases h; intro q; simp [emit]
+  | resume => exact resume_acc st st' hA h
+  | extraBall =>
+    simp only [step] at h; split at h
+    · cases h
+    · cases h; intro q; have := hA q; simp only [setAt]; split <;> (try subst_vars) <;> omega
+  | drain n =>
+    simp only [step] at h; split at h
+    · cases h; split <;> exact hA
+    · cases h
+  | addPlayer =>
+    simp only [step] at h; split at h
+    · cases h
+    · split at h <;> cases h <;> exact hA
+  | finish =>
+    simp only [step] at h; split at h <;> cases h; exact hA
+  | startCheck =>
+    simp only [step] at h; split at h <;> cases h; exact hA
+  | endBall => simp only [step] at h; split at h <;> cases h; exact hA
+  | endGame => simp only [step] at h; split at h <;> cases h; exact hA
+  | slam => simp only [step] at h; split at h <;> cases h; exact hA
+  | setBip n => simp only [step] at h; split at h <;> cases h; exact hA
+  | addAccepted => simp only [step, stepAdd] at h; split at h <;> cases h; exact hA
+  | addRejected => simp only [step, stepAdd] at h; split at h <;> cases h; exact hA
+  | playerAdded => simp only [step, stepAdd] at h; split at h <;> cases h; exact hA
+
+theorem run_acc (st : St) (ops : List Op) (hA : Acc st) : Acc (run st ops) := by
+  induction ops generalizing st with
+  | nil => exact hA
+  | cons op r ih =>
+    simp only [run]
+    cases hs : step st op with
+    | none => simpa using ih st hA
+    | some st' => simpa using ih st' (step_acc st st' op hA hs)
+
+
+theorem resume_bpg (st st' : St) (h : resume st = some st') : st'.bpg = st.bpg := by
+  unfold resume at h
+  split at h
+  · cases h
+  cases hp : st.pc with
+  | none => simp [hp] at h
+  | some p =>
+    cases p
+    case gsd | pted =>
+      by_cases he : st.ending = true <;> by_cases hs : st.slam = true <;> by_cases hl : st.balls st.cur ≥ st.bpg <;>
+        simp [hp, he, hs, hl, loopCheck] at h <;> (try split at h) <;> (try simp at h) <;> subst h <;> rfl
+    case ptsd | bed =>
+      by_cases he : st.ending = true <;> by_cases hs : st.slam = true <;> by_cases hx : st.extra st.cur > 0 <;>
+        simp [hp, he, hs, hx, extraCheck, startBall] at h <;> subst h <;> rfl
+    case bsd =>
+      by_cases hev : st.endEv = true <;> simp [hp, hev] at h
+      subst h; rfl
+    case ged => simp [hp] at h
+    case gsg =>
+      by_cases hc : st.checked = true <;> by_cases he : st.ending = true <;> by_cases h0 : st.players = 0 <;>
+        simp [hp, hc, he, h0] at h <;> subst h <;> rfl
+    all_goals
+      simp [hp] at h
+      subst h
+      rfl
+
+theorem step_bpg (st st' : St) (op : Op) (h : step st op = some st') : st'.bpg = st.bpg := by
+  cases op with
+  | start => simp only [step] at h; split at h <;> cases h; rfl
+  | resume => exact resume_bpg st st' h
+  | extraBall => simp only [step] at h; split at h <;> cases h; rfl
+  | drain n =>
+    simp only [step] at h; split at h
+    · cases h; split <;> rfl
+    · cases h
+  | addPlayer =>
+    simp only [step] at h; split at h
+    · cases h
+    · split at h <;> cases h <;> rfl
+  | finish => simp only [step] at h; split at h <;> cases h; rfl
+  | startCheck => simp only [step] at h; split at h <;> cases h; rfl
+  | endBall => simp only [step] at h; split at h <;> cases h; rfl
+  | endGame => simp only [step] at h; split at h <;> cases h; rfl
+  | slam => simp only [step] at h; split at h <;> cases h; rfl
+  | setBip n => simp only [step] at h; split at h <;> cases h; rfl
+  | addAccepted => simp only [step, stepAdd] at h; split at h <;> cases h; rfl
+  | addRejected => simp only [step, stepAdd] at h; split at h <;> cases h; rfl
+  | playerAdded => simp only [step, stepAdd] at h; split at h <;> cases h; rfl
+
+theorem run_bpg (st : St) (ops : List Op) : (run st ops).bpg = st.bpg := by
+  induction ops generalizing st with
+  | nil => rfl
+  | cons op r ih =>
+    simp only [run]
+    cases hs : step st op with
+    | none => simpa using ih st
+    | some st' => simpa using (ih st').trans (step_bpg st st' op hs)
 
 end MpfVerif.Game
